@@ -18,7 +18,11 @@ VISITORS = {
     "standard": ("odata_query.sql.base.AstToSqlVisitor", R.STANDARD),
     "sqlite": ("odata_query.sql.sqlite.AstToSqliteSqlVisitor", R.SQLITE),
     "athena": ("odata_query.sql.athena.AstToAthenaSqlVisitor", R.STANDARD),
+    "odata": ("odata_query.roundtrip.AstToODataVisitor", R.ODATA),
 }
+OD_BINOP = {"Add": "ADD", "Sub": "SUB", "Mult": "MUL", "Div": "DIV", "Mod": "MOD"}
+OD_CMP = {"Eq": "EQ", "NotEq": "NE", "Lt": "LT", "LtE": "LE", "Gt": "GT", "GtE": "GE", "In": "IN"}
+OD_BOOL = {"And": "AND", "Or": "OR"}
 VISIT = "odata_query.visitor.NodeVisitor.visit"
 OP_KINDS = ["Add", "Sub", "Mult", "Div", "Mod", "Eq", "NotEq", "Lt", "LtE", "Gt", "GtE", "In", "And", "Or", "Not", "USub",
             "Any", "All"]
@@ -67,11 +71,12 @@ def lmin(c, dialect, t, side):
             e = z3.If(U.is_kind(k, op), z3.IntVal(D.binary[txt]), e)
         return e
     out = INF
-    out = z3.If(U.is_kind("BinOp", t), by_op("BinOp", "op", SQL_BINOP), out)
-    cmp_level = by_op("Compare", "comparator", SQL_CMP)
-    # `x eq null` / `x ne null` are printed with IS / IS NOT
+    od = D.name == "odata"
+    out = z3.If(U.is_kind("BinOp", t), by_op("BinOp", "op", OD_BINOP if od else SQL_BINOP), out)
+    cmp_level = by_op("Compare", "comparator", OD_CMP if od else SQL_CMP)
+    # `x eq null` / `x ne null` are printed with IS / IS NOT (same level as = in the SQL dialects)
     out = z3.If(U.is_kind("Compare", t), cmp_level, out)
-    out = z3.If(U.is_kind("BoolOp", t), by_op("BoolOp", "op", SQL_BOOL), out)
+    out = z3.If(U.is_kind("BoolOp", t), by_op("BoolOp", "op", OD_BOOL if od else SQL_BOOL), out)
     if side == "R":
         un = z3.If(U.is_kind("Not", fld("UnaryOp", "op", t)), z3.IntVal(D.prefix["NOT"]), z3.IntVal(D.prefix["-"]))
         out = z3.If(U.is_kind("UnaryOp", t), un, out)
@@ -240,6 +245,9 @@ def field_language(c, kind, field):
     elif key == ("Duration", "val"):
         env = facts.module_env("odata_query.ast").get("DURATION_PATTERN")
         node = P.parse(env["pattern"], env["flags"] & ~re.U) if env and env.get("k") == "regex" else None
+    elif key == ("Geography", "val"):
+        # the GEOGRAPHY action keeps the body between the quotes verbatim (doubled quotes stay doubled)
+        node = P.parse(r"(?:[^']|'')*", 0)
     _LANG_CACHE[key] = node
     return node
 
@@ -308,9 +316,10 @@ def data_condition(c, hole, context, dialect):
             node = P.parse_node(lang, image(lang, tr, P)) if False else _mapped(P, c, info, tr)
         except A.RegexUnsupported as ex:
             return None, f"language image not computable: {ex}"
-        g = A.Group({"L": node, "BAD": A.Cat([A.anystar(), A.lit("'"), A.anystar()])})
-        w = g.intersect_witness("L", "BAD")
-        return (w is None), ("token language has no quote" if w is None else f"value {w!r} carries a quote into a '...' literal")
+        g = A.Group({"L": node, "OK": P.parse(r"(?:[^']|'')*", 0)})
+        w = g.subset_witness("L", "OK")
+        return (w is None), ("every value is a well-formed literal body" if w is None
+                             else f"value {w!r} carries an undoubled quote into a '...' literal")
     if context == "qid":
         if any_string:
             return False, "arbitrary text inside a quoted identifier"
@@ -321,6 +330,14 @@ def data_condition(c, hole, context, dialect):
         g = A.Group({"L": node, "BAD": A.Cat([A.anystar(), A.lit('"'), A.anystar()])})
         w = g.intersect_witness("L", "BAD")
         return (w is None), ("identifier language has no double quote" if w is None else f"name {w!r} breaks out of the quoted identifier")
+    if context == "bare" and dialect.name == "odata":
+        if not tr and info.kind in ("Integer", "Float", "Boolean", "Date", "Time", "DateTime", "GUID") and info.field == "val":
+            return True, "the literal's own token text"
+        if not tr and info.kind == "Identifier" and info.field in ("name", "namespace"):
+            return True, "identifier part"
+        if not tr and info.kind == "Attribute" and info.field == "attr":
+            return True, "path segment"
+        return False, f"{info.kind}.{info.field} spliced bare with transformations {tr}"
     if context == "bare":
         if any_string:
             return False, "arbitrary text spliced outside any literal"
@@ -375,6 +392,8 @@ def _mapped(P, c, info, tr):
     if key == ("Duration", "val"):
         env = facts.module_env("odata_query.ast").get("DURATION_PATTERN")
         return P.parse(env["pattern"], env["flags"] & ~re.U, charmap=charmap)
+    if key == ("Geography", "val") and not tr:
+        return P.parse(r"(?:[^']|'')*", 0)
     raise A.RegexUnsupported(f"no language for {key}")
 
 
@@ -449,12 +468,14 @@ def reader_obligations(c, dkey, path, node, value, alias_term, spec_tree=None, p
         for side, key in (("L", "lvlL"), ("R", "lvlR")):
             cst, refs = rd[key]
             want = lmin(c, dialect, node, side)
-            # nothing binds tighter than a prefix sign: an exposed unary minus satisfies any promise
-            want = z3.If(want > 10, z3.IntVal(10), want)
+            # nothing binds tighter than a prefix sign in SQL: an exposed unary minus satisfies any promise
+            cap = max(dialect.prefix.values())
+            cap = cap if cap > max(dialect.binary.values()) else R.INF
+            want = z3.If(want > cap, z3.IntVal(cap), want)
             goal = z3.IntVal(cst) >= want
             for hole, s2 in refs:
                 lv = lmin(c, dialect, hole.payload, s2)
-                goal = z3.And(goal, z3.If(lv > 10, z3.IntVal(10), lv) >= want)
+                goal = z3.And(goal, z3.If(lv > cap, z3.IntVal(cap), lv) >= want)
             out.append(("post.lvl", goal, {"template": text[:200], "side": side, "exposes": cst}))
     # data holes
     for hole, ctx, _ in rd["data"]:
